@@ -200,8 +200,14 @@ def chan_facts(ctx):
         has_ping = any(k_ == "ping" for k_, _ in seq)
         if O.entails(ctx, p.pc, O.dz(r.disc) == 0)[0]:
             tf["ok"] = has_ping
-        elif "Err" in r.payloads and O.entails(ctx, p.pc, O.dz(disc_of(r.payloads["Err"][0])) == 0)[0]:
-            tf["full"] = has_ping
+        elif O.entails(ctx, p.pc, O.dz(r.disc) == 1)[0]:
+            errv = r.payloads.get("Err", {}).get(0)
+            ed = disc_of(errv) if errv is not None else None
+            if ed is not None and O.entails(ctx, p.pc, O.dz(ed) == 0)[0]:
+                tf["full"] = has_ping                    # the Full arm
+            elif ed is None or not O.entails(ctx, p.pc, O.dz(ed) != 0)[0]:
+                # the code does not look at WHICH error it was: this path is also the Full case
+                tf["full"] = has_ping if tf["full"] is None else tf["full"]
     if None in tf.values():
         raise Unsupported("SyncSender::try_send: paths not identified")
     facts["try_send_ping"] = tf
@@ -420,6 +426,18 @@ def p_chan(ctx, tier):
                 failing.append("round_with_queued_message_delivers_nothing[%s]" % cname)
                 cex = cex or ("[%s]\n" % cname) + "\n".join(ex.schedule(m))
                 break
+        # (4b) a sender parked in a blocking send without having issued ANY wake-up for that message (distinct from the
+        # recorded D11 schedule, in which the wake-up was issued but consumed before the sender parked)
+        if not cname.startswith("unbounded"):
+            never = []
+            for oi, op in enumerate(sops[:n_send_ops]):
+                if op.kind == "efd_write":
+                    never.append(z3.Or(z3.Not(ex.executed(0, oi)), z3.Not(ex.ret(0, oi, "active"))))
+            if never:
+                sat, m = q(ex, z3.Not(sdone), quiescent, z3.And(*never), z3.Not(z3.Or(*closed)) if closed else z3.BoolVal(True))
+                if sat:
+                    failing.append("blocking_send_parked_without_any_wakeup[%s]" % cname)
+                    cex = cex or ("[%s]\n" % cname) + "\n".join(ex.schedule(m))
         # (4) blocked sender while the loop is idle
         if not cname.startswith("unbounded"):
             sat, m = q(ex, z3.Not(sdone), quiescent, z3.Not(z3.Or(*closed)) if closed else z3.BoolVal(True))
